@@ -1298,6 +1298,13 @@ func (a *Agent) addRemoteCandidate(cand Candidate) bool { //nolint:cyclop
 		if candidate.Equal(cand) {
 			return true
 		}
+
+		// A peer-reflexive candidate adds nothing over a known candidate with the
+		// same transport address (it may only differ in its related address), and
+		// two of them would later be superseded into duplicate pairs.
+		if cand.Type() == CandidateTypePeerReflexive && candidate.transportAddressEqual(cand) {
+			return true
+		}
 	}
 
 	// RFC 8838 §11.4: If a trickled candidate is redundant with an existing
